@@ -20,7 +20,9 @@ AsOK   == [issuer |-> "ok", subject |-> "ok", conf |-> "ok", method |-> "ok", da
 RootFaults == { <<0, "version", "absent">>, <<0, "version", "wrong">>,
                 <<0, "dest", "other">>, <<0, "dest", "near">>, <<0, "dest", "absent">>, <<0, "dest", "empty">>,
                 <<0, "issuer", "absent">>, <<0, "issuer", "other">>,
-                <<0, "status", "nostatus">>, <<0, "status", "nocode">>, <<0, "status", "fail">> }
+                <<0, "status", "nostatus">>, <<0, "status", "nocode">>, <<0, "status", "fail">>,
+                \* second-level status codes: a failure wrapping Success is a failure; Success qualified by a sub-code is Success
+                <<0, "status", "nestfail">>, <<0, "status", "nestok">> }
 AsFaults(n) == { <<i, f[1], f[2]>> : i \in 1..n,
                  f \in { <<"issuer", "absent">>, <<"issuer", "other">>, <<"subject", "absent">>, <<"conf", "absent">>,
                          <<"method", "other">>, <<"data", "absent">>, <<"recipient", "absent">>, <<"recipient", "other">>, <<"recipient", "near">>, <<"authn", "absent">>,
@@ -58,7 +60,7 @@ RootCheck(cfg, r, n) ==
    ELSE IF cfg.issuerCfg /\ r.issuer = "other" THEN E("ErrInvalidValue", "issuer")
    ELSE IF r.status = "nostatus" THEN E("ErrMissingElement", "status")
    ELSE IF r.status = "nocode" THEN E("ErrMissingElement", "statuscode")
-   ELSE IF r.status = "fail" THEN E("ErrInvalidValue", "statuscode")
+   ELSE IF r.status \in {"fail", "nestfail"} THEN E("ErrInvalidValue", "statuscode")
    ELSE NoErr
 
 AsCheck(cfg, a) ==
@@ -98,7 +100,7 @@ RootViol(cfg, r, n) ==
    (IF cfg.issuerCfg /\ r.issuer = "other" THEN {V("ErrInvalidValue", {"issuer"})} ELSE {}) \cup
    (IF r.status = "nostatus" THEN {V("ErrMissingElement", {"status"})} ELSE {}) \cup
    (IF r.status = "nocode" THEN {V("ErrMissingElement", {"statuscode", "status"})} ELSE {}) \cup
-   (IF r.status = "fail" THEN {V("ErrInvalidValue", {"statuscode", "status"})} ELSE {})
+   (IF r.status \in {"fail", "nestfail"} THEN {V("ErrInvalidValue", {"statuscode", "status"})} ELSE {})
 \* faults below an absent ancestor do not exist in the document
 AsViol(cfg, a) ==
    (IF a.issuer = "absent" THEN {V("ErrMissingElement", {"issuer"})} ELSE {}) \cup
